@@ -1,5 +1,6 @@
 (* Case runner and spec checker (T3) for C02. *)
 From WI Require Import Lib.Base Lib.Info Lib.Strings Model.Keys.
+From WI Require Model.KeysDer.
 Open Scope N_scope.
 
 (* ---------- decoding of case inputs ---------- *)
@@ -7,6 +8,10 @@ Definition opt_bytes (a : arg) : option bytes := match a with AL [AB b] => Some 
 Definition arcs_of (a : arg) : list N := map arg_N (arg_list a).
 Definition inferred_of (a : arg) : result bytes :=
   match a with AL [AZ 0%Z; AB n] => Ok n | AL [AZ 2%Z] => Panic "oracle" | _ => Err "oracle" end.
+(* for the ops that decode from the bytes: a curve matcher answer that was not recorded (the harness's own
+   Unmarshal failed) must not be asked for - if the model asks, its observation differs from any the code makes *)
+Definition inferred_strict (a : arg) : result bytes :=
+  match a with AL [AZ 0%Z; AB n] => Ok n | _ => Panic "curve matcher: panic, or no recorded answer" end.
 Definition ecparams_of (a : arg) : result ecparams :=
   match a with
   | AL [AZ 1%Z; arcs] => Ok (EcNamed (arcs_of arcs))
@@ -95,6 +100,42 @@ Fixpoint run_op (depth : nat) (op : bytes) (input : arg) : arg :=
     obs_info (ssh_known_hosts_file (fx_size fx)
                 (map (fun a => (ssh_oracle_of (arg_nth 1 a), kh_line_of (arg_nth 0 a))) (arg_list i1)))
   else if bytes_eqb op (bs "ppk") then obs_info (putty_ppk fx (ppk_of i1))
+  (* the DER containers from the BYTES alone (Model/KeysDer.v): no answer of asn1.Unmarshal in the input;
+     spkider / pkcs8der / ecparamsder / sec1der: i1 is the recorded answer of the curve matcher
+     elliptic.CurveNameFromParameters (C16), used for explicit EC parameters only *)
+  else if bytes_eqb op (bs "pkcs1pubder") then obs_info (KeysDer.parse_pkcs1_public_der (arg_bytes i0))
+  else if bytes_eqb op (bs "pkcs1privder") then obs_info (KeysDer.parse_pkcs1_private_der (arg_bytes i0))
+  else if bytes_eqb op (bs "dsaprivder") then obs_info (KeysDer.parse_dsa_private_der (arg_bytes i0))
+  else if bytes_eqb op (bs "dsaparamsder") then obs_info (KeysDer.parse_dsa_parameters_der (arg_bytes i0))
+  else if bytes_eqb op (bs "spkider") then obs_info (KeysDer.parse_pkix_der (inferred_strict i1) (arg_bytes i0))
+  else if bytes_eqb op (bs "pkcs8der") then obs_info (KeysDer.parse_pkcs8_der (inferred_strict i1) (arg_bytes i0))
+  else if bytes_eqb op (bs "ecparamsder") then obs_info (KeysDer.parse_ec_parameters_der (inferred_strict i1) (arg_bytes i0))
+  else if bytes_eqb op (bs "sec1der") then obs_info (KeysDer.parse_sec1_der (inferred_strict i1) (arg_bytes i0))
+  (* the DER writers the from-the-bytes theorems are about, against asn1.Marshal of the repository's structs *)
+  else if bytes_eqb op (bs "derenc") then
+    let k := arg_bytes i0 in
+    let raw := match arg_list i1 with x :: _ => arg_bytes x | [] => [] end in
+    let a := map (fun x => be_to_N (arg_bytes x)) (arg_list i1) in
+    let z := fun i => nth i a 0 in
+    AL [AZ 0%Z; AB (
+      if bytes_eqb k (bs "pkcs1pub") then KeysDer.enc_pkcs1_public (z 0%nat) (z 1%nat)
+      else if bytes_eqb k (bs "pkcs1priv") then
+        KeysDer.enc_pkcs1_private (z 0%nat) (z 1%nat) (z 2%nat) (z 3%nat) (z 4%nat) (z 5%nat) (z 6%nat) (z 7%nat)
+      else if bytes_eqb k (bs "dsaparams") then KeysDer.enc_dsa_parameters (z 0%nat) (z 1%nat) (z 2%nat)
+      else if bytes_eqb k (bs "dsapriv") then KeysDer.enc_dsa_private (z 0%nat) (z 1%nat) (z 2%nat) (z 3%nat) (z 4%nat)
+      else if bytes_eqb k (bs "spkirsa") then KeysDer.enc_spki_rsa (z 0%nat) (z 1%nat)
+      else if bytes_eqb k (bs "spkidsa") then KeysDer.enc_spki_dsa (z 0%nat) (z 1%nat) (z 2%nat) (z 3%nat)
+      else if bytes_eqb k (bs "pkcs8rsa") then
+        KeysDer.enc_pkcs8_rsa (z 0%nat) (z 1%nat) (z 2%nat) (z 3%nat) (z 4%nat) (z 5%nat) (z 6%nat) (z 7%nat)
+      else if bytes_eqb k (bs "pkcs8dsa") then KeysDer.enc_pkcs8_dsa (z 0%nat) (z 1%nat) (z 2%nat) (z 3%nat)
+      else if bytes_eqb k (bs "ecnamed") then KeysDer.enc_oid (arcs_of (arg_nth 2 input))
+      else if bytes_eqb k (bs "sec1named") then
+        KeysDer.enc_sec1_named (arcs_of (arg_nth 2 input)) raw (arg_bytes (arg_nth 1 i1))
+      else if bytes_eqb k (bs "spkiec") then KeysDer.enc_spki_ec_named (arcs_of (arg_nth 2 input)) raw
+      else if bytes_eqb k (bs "pkcs8ec") then KeysDer.enc_pkcs8_ec_named (arcs_of (arg_nth 2 input)) raw
+      else if bytes_eqb k (bs "spkied25519") then KeysDer.enc_spki_ed25519 raw
+      else if bytes_eqb k (bs "pkcs8ed25519") then KeysDer.enc_pkcs8_ed25519 raw
+      else [])]
   else if bytes_eqb op (bs "pkcs1pub") then obs_info (parse_pkcs1_public (opt_bytes i1))
   else if bytes_eqb op (bs "pkcs1priv") then obs_info (parse_pkcs1_private (opt_bytes i1))
   else if bytes_eqb op (bs "dsapriv") then obs_info (parse_dsa_private (opt_bytes i1))
@@ -335,7 +376,11 @@ Definition is_panic_obs (a : arg) : bool := match a with AL [AZ 2%Z] => true | _
 Definition ec_oracle_panics (e : arg) : bool :=
   match e with AL [AZ 2%Z; _; _; _; inf] => is_panic_obs inf | _ => false end.
 Definition curve_matcher_panics (op : bytes) (oracle : arg) : bool :=
-  if bytes_eqb op (bs "ecparams") then ec_oracle_panics oracle
+  if bytes_eqb op (bs "spkider") || bytes_eqb op (bs "pkcs8der") || bytes_eqb op (bs "ecparamsder") || bytes_eqb op (bs "sec1der")
+  then is_panic_obs oracle
+  else if bytes_eqb op (bs "ecparams") then ec_oracle_panics oracle
+  else if bytes_eqb op (bs "pkcs1pubder") || bytes_eqb op (bs "pkcs1privder") || bytes_eqb op (bs "dsaprivder")
+          || bytes_eqb op (bs "dsaparamsder") then false
   else if bytes_eqb op (bs "sec1") then match oracle with AL [_; _; _; _; inf] => is_panic_obs inf | _ => false end
   else match oracle with AL [_; _; _; e] => ec_oracle_panics e | _ => false end.
 
@@ -370,7 +415,7 @@ Definition check_ssh1_cipher (spec : arg) (data : bytes) (obs : arg) : arg :=
   end.
 
 Definition check_C02 (op : bytes) (input impl : arg) : arg :=
-  if bytes_eqb op (bs "int") || bytes_eqb op (bs "crypto") then AL []
+  if bytes_eqb op (bs "int") || bytes_eqb op (bs "crypto") || bytes_eqb op (bs "derenc") then AL []
   else if bytes_eqb op (bs "kdf") then
     match impl with AL [AZ 2%Z] => AS "parseKdfOptions panics" | _ => AL [] end
   else if bytes_eqb op (bs "ssh1") then
